@@ -107,8 +107,30 @@ def run_tree(chk, rows, d, p, ps, queries, tag, with_pickle=False):
     chk.count("ps=" + ("1" if ps <= 1 else "n" if ps == n else "<n" if ps < n else ">n"), len(queries))
 
 
+def index_arithmetic(chk, tier):
+    """tie of `Model/RTreeIndex.lean` (C03_index_arithmetic) to the code: `_start_index` / `_stop_index` of the real `_NumbaRtree` for every
+    node of trees of every shape (row counts around the powers of two, ragged last page) against the model"""
+    from spatialpandas.spatialindex import HilbertRtree
+    sizes = list(range(1, 20)) + [31, 32, 33, 63, 64, 65] + ([127, 128, 129, 1023, 1025] if tier != "quick" else [])
+    for n in sizes:
+        for ps in (1, 2, 3, 5, 16, 512):
+            rows = [[i % 7, i % 5, i % 7 + 1, i % 5 + 2] for i in range(n)]
+            rt = HilbertRtree(np.asarray(rows, dtype=np.float64), page_size=ps)
+            nr = rt.numba_rtree
+            length = int(nr._bounds_tree.shape[0])
+            impl = [[int(nr._start_index(k)), int(nr._stop_index(k))] for k in range(length)]
+            model = untok(drive([f"rtidx {length} {ps}"])[0])
+            chk.evaluated(length)
+            if model != impl:
+                chk.tie_broken(f"correspondence C03 index arithmetic (Model/RTreeIndex.lean vs _NumbaRtree._start_index/_stop_index): "
+                               f"n={n} page_size={ps} tree_length={length} impl={impl[:8]} model={str(model)[:120]}")
+                return
+            chk.count("index-arithmetic-trees")
+
+
 def run_cases(chk, tier):
     r = common.rng(PROP)
+    index_arithmetic(chk, tier)
     # d = 1 exhaustive
     vals = (0, 1, 2, 3)
     opts = boxes_1d(vals) + [[NAN, NAN]]
